@@ -100,5 +100,33 @@ func c14Directed(rng *RNG) []Case {
 		lines = append(lines, fmt.Sprintf("mem gettag %s %s", tok("a"), tok("v1")))
 		cases = append(cases, Case{Tag: fmt.Sprintf("directed:retype-before-tag:%d", n0), Lines: lines})
 	}
+	// one stored manifest listed twice by a tagged index, once as what it is stored as and once as an index: read as an
+	// index it leads to m1, which nothing else keeps (a walk that visits each stored manifest once only stops short: seed C14-15)
+	for _, order := range [][2]string{{ocispecImg, ocispecIdx}, {ocispecIdx, ocispecImg}} {
+		m1 := byName["m1"]
+		cfg := descJSON("application/vnd.oci.image.config.v1+json", sha256Digest(u.blobs[4]), int64(len(u.blobs[4])))
+		pdata := mustJSON(map[string]any{"schemaVersion": 2, "mediaType": ocispecImg, "config": cfg, "layers": []any{},
+			"manifests": []any{descJSON(m1.mt, sha256Digest(m1.data), int64(len(m1.data)))}})
+		idata := mustJSON(map[string]any{"schemaVersion": 2, "mediaType": ocispecIdx, "manifests": []any{
+			descJSON(order[0], sha256Digest(pdata), int64(len(pdata))), descJSON(order[1], sha256Digest(pdata), int64(len(pdata)))}})
+		lines := []string{"mem init 1"}
+		lines = append(lines, pushBlobs("a")...)
+		lines = append(lines, linePushManifest("a", "", m1.data, m1.mt), linePushManifest("a", "", pdata, ocispecImg), linePushManifest("a", "v1", idata, ocispecIdx))
+		lines = append(lines, fmt.Sprintf("mem deletemanifest %s %s", tok("a"), tok(sha256Digest(m1.data))))
+		for _, bi := range []int{1, 2, 4} {
+			lines = append(lines, fmt.Sprintf("mem deleteblob %s %s", tok("a"), tok(sha256Digest(u.blobs[bi]))))
+		}
+		lines = append(lines, fmt.Sprintf("mem getmanifest %s %s", tok("a"), tok(sha256Digest(m1.data))))
+		for _, bi := range []int{1, 2, 4} {
+			lines = append(lines, fmt.Sprintf("mem getblob %s %s", tok("a"), tok(sha256Digest(u.blobs[bi]))))
+		}
+		lines = append(lines, fmt.Sprintf("mem gettag %s %s", tok("a"), tok("v1")))
+		cases = append(cases, Case{Tag: "directed:declared-twice", Lines: lines})
+	}
 	return cases
 }
+
+const (
+	ocispecImg = "application/vnd.oci.image.manifest.v1+json"
+	ocispecIdx = "application/vnd.oci.image.index.v1+json"
+)
